@@ -60,7 +60,7 @@ RULE = (
     'Histories generated as data. Hypothesis draws, per algorithm (FedAvg, '
     'FedProx, Mime, MimeLite, AgnosticFedAvg, HypCluster with 2-3 clusters, '
     'APFL; default jit for_each_client backend): one of 3 hyper-parameter '
-    'variants (client/server/base optimizer in {sgd, momentum, adam}, '
+    'variants (client/server/base optimizer in {sgd, momentum, nesterov, adam}, '
     'batch_size 2-3, num_epochs 1-2, num_steps, drop_remainder, skip_shuffle, '
     'fixed integer batching seed, proximal weight, server learning rate, clip '
     'norm, domain window 1-3 / domains 2-3 / eg|none, client coefficient), '
@@ -73,8 +73,9 @@ RULE = (
     '(<= 6 / 12 operations; the last one is always an apply). The loss '
     'depends on the client rng. For the compression aggregators (uniform, '
     'uniform+arithmetic, rotated uniform, structured DRIVE, TernGrad): levels '
-    'in {2,3,16} ({2,3} with arithmetic coding), key seed, one of 2 tree shapes, a pool of 4-6 client trees '
-    'with weights, same operations. Non-trivial: >= 3 applies, some client '
+    'in {2,3,16} ({2,3} with arithmetic coding), key seed, one of 2 tree '
+    'shapes, a pool of 4-6 client trees (generic / constant / all-zero dyadic '
+    'values) with weights, same operations. Non-trivial: >= 3 applies, some client '
     'takes part in >= 2 applies, and the history contains an effective branch '
     '(to a state other than the current one, followed by an apply) or a '
     'roundtrip followed by an apply; distinct = distinct canonical case JSON.')
@@ -97,7 +98,7 @@ ASSUMPTIONS = [
     'states are pickled through fedjax.serialization.save_state/load_state '
     '(tf.io.gfile) into a per-case mkdtemp under /var/tmp, removed afterwards',
     'learning problems are tiny least-squares models with dyadic data and '
-    'step sizes <= 1/4 so trajectories stay finite; non-finite states are '
+    'client step sizes <= 1/4 so trajectories stay finite; non-finite states are '
     'counted (label nonfinite_state) but not asserted on',
 ]
 
@@ -715,8 +716,8 @@ def _agg_plan_adapter(fn):
   return wrapped
 
 
-QUICK = {'fed_avg': 160, 'fed_prox': 160, 'mime': 160, 'mime_lite': 160,
-         'agnostic': 160, 'hyp_cluster': 160, 'apfl': 192}
+QUICK = {'fed_avg': 128, 'fed_prox': 128, 'mime': 128, 'mime_lite': 128,
+         'agnostic': 128, 'hyp_cluster': 128, 'apfl': 160}
 # relative shares of the per-shard soft time cap, proportional to measured cost
 SHARE = {'fed_avg': 1.0, 'fed_prox': 1.0, 'mime': 1.5, 'mime_lite': 1.5,
          'agnostic': 2.0, 'hyp_cluster': 2.5, 'apfl': 2.0}
@@ -728,7 +729,7 @@ DOC = ('generated histories of apply / branch / roundtrip for %s: duplicate '
 CHECKS = [
     Check(name=alg, run=run_history, strategy=algorithm_strategy(alg),
           labels=labels, nontrivial=nontrivial,
-          budget={'quick': QUICK[alg], 'thorough': 16 * QUICK[alg]},
+          budget={'quick': QUICK[alg], 'thorough': 20 * QUICK[alg]},
           time_share=SHARE[alg],
           doc=DOC % alg)
     for alg in ALGS
@@ -736,7 +737,7 @@ CHECKS = [
     Check(name='aggregators', run=run_history, strategy=aggregator_strategy,
           labels=_agg_plan_adapter(labels),
           nontrivial=_agg_plan_adapter(nontrivial),
-          budget={'quick': 400, 'thorough': 6400}, time_share=3.5,
+          budget={'quick': 320, 'thorough': 6400}, time_share=3.5,
           doc=DOC % 'the five compression aggregators (output = aggregated '
               'params + new CompressionState)'),
 ]
